@@ -172,11 +172,13 @@ def build_cases(seed, n, max_points):
         cfg = cfgs[1]
         phases = [initial_phase(proj, cfg=cfg, seed=seed)]
         # crash during the first build and during a rebuild after switching every versioned source
-        cases.append({"tid": f"crash-{name}-0", "project": proj, "phases": phases, "seed": seed, "max_points": max_points})
+        # (the hand-written shapes are small: all their crash points, up to 40, are restarted in either tier)
+        max_points_shape = max(max_points, 40)
+        cases.append({"tid": f"crash-{name}-0", "project": proj, "phases": phases, "seed": seed, "max_points": max_points_shape})
         edits = [["set", p, v[1]] for p, v in proj["sources"].items() if len(v) > 1]
         if edits:
             phases2 = phases + [{"edits": edits, "how": "restart", "cfg": cfg, "seed": seed + 1}]
-            cases.append({"tid": f"crash-{name}-1", "project": proj, "phases": phases2, "seed": seed + 1, "max_points": max_points})
+            cases.append({"tid": f"crash-{name}-1", "project": proj, "phases": phases2, "seed": seed + 1, "max_points": max_points_shape})
     for i in range(n):
         g = Gen(seed * 100003 + i + 500)
         g.features["fail"] = 0.0
